@@ -466,16 +466,33 @@ func freshDecodeRule(c *Ctx, rule string) {
 				}
 				return false
 			}
+			// a decode into this message: UnmarshalVT on it, or decodeEntry given it
+			isDecode := func(n ast.Node) bool {
+				for _, cl := range shallowCalls(n) {
+					if se, ok := cl.Fun.(*ast.SelectorExpr); ok && se.Sel.Name == "UnmarshalVT" && types_ExprString(se.X) == m.name {
+						return true
+					}
+					if replay.IsCall(cl, "kv/aof.DiskKV.decodeEntry") {
+						for _, a := range cl.Args {
+							if types_ExprString(a) == m.name {
+								return true
+							}
+						}
+					}
+				}
+				return false
+			}
 			reached, _ := replay.Reach(apply[0], isReset, nil)
 			back := false
 			for _, n := range reached {
-				// reaching the loop condition or the next decode without a reset
-				if loop.Cond != nil && n == ast.Node(loop.Cond) {
+				// reaching the next decode without a reset in between (whether the reset sits
+				// at the end of an iteration or at the start of the next)
+				if isDecode(n) && !isReset(n) {
 					back = true
 				}
 			}
 			ok = !back
-			det = "reset with the allocation-dropping Reset() on every path back to the loop head"
+			det = "reset with the allocation-dropping Reset() on every path from the apply to the next decode"
 			// ... and nothing is put back into it afterwards
 			for _, n := range shallowNodes(loop.Body) {
 				as, isAs := n.(*ast.AssignStmt)
